@@ -7,4 +7,5 @@ Extraction "Serde_model.ml" Nat.pred N.succ Z.succ
   read_slice read_be read_le read_sbl read_single_be read_var_len read_count write_single_be trimmed_array
   c_be c_le c_sbl c_var_len c_single_be64 c_single_fixed_be c_count c_network_byte
   c_address c_coin c_output c_btctx c_btcblock c_btcblock_raw c_vbkblock c_vbkblock_raw
+  c_altblock c_keystones c_ctxinfo c_authctx
   c_merklepath c_vbkmerklepath c_pubdata c_vbktx c_vbkpoptx c_atv c_vtb c_popdata.
